@@ -277,9 +277,7 @@ m('C19-m2', 'C19', OR + 'election.rs', '''        if !peers.contains(&vote.node_
 ''', '', 'C19.b')
 m('C19-m3', 'C19', OR + 'config.rs', 'let recommended_min_quorum = node_count / 2 + 1;', 'let recommended_min_quorum = node_count.div_ceil(2);', 'C19.d')
 # ---------------------------------------------------------------- C20
-m('C20-m1', 'C20', 'worterbuch-client/src/lib.rs', '''            Command::Get(key, callback) => {
-                callbacks.state.insert(transaction_id, callback);''', '''            Command::Get(key, callback) => {
-                callbacks.cstate.insert(transaction_id, callback);''', 'C20.b')
+# (C20-m1, a callback stored in the table of another answer kind, does not compile: the callback types differ - the compiler decides it)
 m('C20-m2', 'C20', 'worterbuch-client/src/lib.rs', '''            Command::UnsubscribeAsync(transaction_id, callback) => {
                 callbacks.sub.remove(&transaction_id);
                 callbacks.psub.remove(&transaction_id);''', '''            Command::UnsubscribeAsync(transaction_id, callback) => {
